@@ -156,17 +156,15 @@ func encode(l *mc.Local, f field, enc *rs.ReedSolomonEncoder, data []int, r int)
 	for i := k; i < k+r; i++ {
 		word[i] = 0x7 // stale content must be overwritten
 	}
-	defer func() {
-		for i := k + r; i < len(backing); i++ {
-			if backing[i] != guard {
-				chk.Violation("C04/rs/encode/writes-behind-word/"+f.name, fmt.Sprintf("Encode wrote behind the word it was given (offset +%d)", i-k-r), rsCase{f.name, k, r, data, nil, nil})
-				return
-			}
-		}
-	}()
 	var err error
 	pm, site := mc.Guard(func() { err = enc.Encode(word, r) })
 	l.Count("evaluations", 1)
+	for i := k + r; i < len(backing); i++ {
+		if backing[i] != guard {
+			chk.Violation("C04/rs/encode/writes-behind-word/"+f.name, fmt.Sprintf("Encode wrote behind the word it was given (offset +%d)", i-k-r), rsCase{f.name, k, r, data, nil, nil})
+			return nil
+		}
+	}
 	cs := rsCase{f.name, k, r, data, nil, nil}
 	if pm != "" {
 		chk.Violation("C04/rs/encode/panic/"+site, pm, cs)
@@ -217,14 +215,6 @@ func decodeWord(l *mc.Local, f field, word []int, k, r int, pos, mag []int) {
 	}
 	rcv := backing[:len(word)]
 	copy(rcv, word)
-	defer func() {
-		for i := len(word); i < len(backing); i++ {
-			if backing[i] != guard {
-				chk.Violation("C04/rs/decode/writes-behind-word/"+f.name, "Decode wrote behind the word it was given", rsCase{f.name, k, r, word[:k], pos, mag})
-				return
-			}
-		}
-	}()
 	for i, p := range pos {
 		rcv[p] ^= mag[i]
 	}
@@ -235,6 +225,12 @@ func decodeWord(l *mc.Local, f field, word []int, k, r int, pos, mag []int) {
 		}
 	})
 	l.Count("evaluations", 1)
+	for i := len(word); i < len(backing); i++ {
+		if backing[i] != guard {
+			chk.Violation("C04/rs/decode/writes-behind-word/"+f.name, "Decode wrote behind the word it was given", rsCase{f.name, k, r, word[:k], pos, mag})
+			return
+		}
+	}
 	cs := rsCase{f.name, k, r, word[:k], pos, mag}
 	wclass := fmt.Sprintf("w=%d", len(pos))
 	if len(pos) > 2 {
@@ -429,10 +425,29 @@ func posFamilies(n, k, t int) [][]int {
 
 func runShapes(name string, f field, shapes [][2]int, allMag bool, pairCap int) {
 	size := f.ref.Size
-	chk.Range(name, len(shapes),
-		func(i int) string { return fmt.Sprint(f.name, shapes[i]) },
+	// one job = one chunk of single-error positions of one shape (chunk 0 also does the data
+	// family, the position pairs and the full-weight families), so that a few long shapes still
+	// spread over all workers
+	type job struct{ s, lo, hi int }
+	const chunk = 48
+	var jobs []job
+	for si, sh := range shapes {
+		n := sh[0] + sh[1]
+		for lo := 0; lo < n; lo += chunk {
+			hi := lo + chunk
+			if hi > n {
+				hi = n
+			}
+			jobs = append(jobs, job{si, lo, hi})
+		}
+	}
+	chk.Range(name, len(jobs),
+		func(i int) string {
+			return fmt.Sprint(f.name, shapes[jobs[i].s], " positions ", jobs[i].lo, "..", jobs[i].hi)
+		},
 		func(l *mc.Local, i int) {
-			k, r := shapes[i][0], shapes[i][1]
+			jb := jobs[i]
+			k, r := shapes[jb.s][0], shapes[jb.s][1]
 			n := k + r
 			t := r / 2
 			enc := rs.NewReedSolomonEncoder(f.lib)
@@ -446,45 +461,55 @@ func runShapes(name string, f field, shapes [][2]int, allMag bool, pairCap int) 
 				mags = []int{1, 2, size / 2, size - 1, 0x35 % size, f.ref.Pow(gf.Alpha, 11)}
 			}
 			for di, d := range datas {
+				if di != 2 && jb.lo != 0 {
+					continue
+				}
 				word := encode(l, f, enc, d, r)
 				if word == nil {
 					return
 				}
-				decodeWord(l, f, word, k, r, nil, nil)
+				if jb.lo == 0 {
+					decodeWord(l, f, word, k, r, nil, nil)
+				}
 				if di != 2 {
 					continue
 				}
 				if t >= 1 {
-					for p := 0; p < n; p++ {
+					for p := jb.lo; p < jb.hi; p++ {
 						for _, m := range mags {
 							decodeWord(l, f, word, k, r, []int{p}, []int{m})
 						}
 					}
 				}
 				if t >= 2 && n <= pairCap {
-					combos(n, 2, func(pos []int) {
-						for v := 0; v < 2; v++ {
-							decodeWord(l, f, word, k, r, append([]int{}, pos...), []int{1 + v*(size-2), 1 + (pos[0]*3+pos[1]+v)%(size-1)})
-						}
-					})
-				}
-				for _, pf := range posFamilies(n, k, t) {
-					for menu := 0; menu < 3; menu++ {
-						mag := make([]int, len(pf))
-						for j := range mag {
-							switch menu {
-							case 0:
-								mag[j] = 1
-							case 1:
-								mag[j] = size - 1
-							case 2:
-								mag[j] = 1 + (j*7+pf[j])%(size-1)
+					// pairs whose first position lies in this chunk
+					for p0 := jb.lo; p0 < jb.hi; p0++ {
+						for p1 := p0 + 1; p1 < n; p1++ {
+							for v := 0; v < 2; v++ {
+								decodeWord(l, f, word, k, r, []int{p0, p1}, []int{1 + v*(size-2), 1 + (p0*3+p1+v)%(size-1)})
 							}
 						}
-						decodeWord(l, f, word, k, r, pf, mag)
 					}
 				}
-				if c := chk; c.Expired() {
+				if jb.lo == 0 {
+					for _, pf := range posFamilies(n, k, t) {
+						for menu := 0; menu < 3; menu++ {
+							mag := make([]int, len(pf))
+							for j := range mag {
+								switch menu {
+								case 0:
+									mag[j] = 1
+								case 1:
+									mag[j] = size - 1
+								case 2:
+									mag[j] = 1 + (j*7+pf[j])%(size-1)
+								}
+							}
+							decodeWord(l, f, word, k, r, pf, mag)
+						}
+					}
+				}
+				if chk.Expired() {
 					return
 				}
 			}
